@@ -1,4 +1,56 @@
-(* C02 - placeholder until the frame theorem is in place: see TargetProofs. *)
-Require Import RQ.Base RQ.Target.
-Theorem C02_placeholder : True. Proof. exact I. Qed.
-Print Assumptions C02_placeholder.
+(* C02 - Drawing never changes pixels outside shape, clip and surface. *)
+Require Import RQ.Base RQ.F32 RQ.Rect RQ.Pixel RQ.Raster RQ.PathF RQ.Shader RQ.Surface RQ.Target RQ.TargetProofs RQ.OpsProofs.
+
+(* (1) Every drawing call - fill, stroke, fill_rect, clear, mask, draw_image_at, draw_image_with_size_at -
+   that returns leaves everything but the pixels of the current destination (innermost open layer, or
+   the surface) as it was: size, clip stack, transform, every outer layer, the surface under an open
+   layer, the destination's own rectangle and length; and what it did to the destination's pixels is
+   nothing, or the unclipped clear, or exactly ONE composite run on the same pixels / clips / layers. *)
+Theorem C02_drawing_call_frame : forall st o st',
+  d_probe st = 0 -> drawing_op o = true -> step_op st o = Ok st' -> same_frame st st' /\ effect st st'.
+Proof. exact (fun st o st' Hp Hd H => conj (effect_same_frame st st' Hp (drawing_op_effect st o st' Hd H)) (drawing_op_effect st o st' Hd H)). Qed.
+Print Assumptions C02_drawing_call_frame.
+
+(* (2) A composite - with ANY blend mode (all 28 are instances of `blend`), any source, any alpha -
+   leaves a destination pixel bit-identical when it lies outside rect /\ clip bounds /\ destination /\
+   mask rectangle, or its shape coverage byte is 0, or (a clip path being in force) its clip coverage
+   byte is 0; and it changes no buffer but the current destination. *)
+Theorem C02_composite_frame : forall st src mask mr rect0 blend alpha st',
+  d_probe st = 0 -> composite st src mask mr rect0 blend alpha = Ok st' ->
+  d_w st' = d_w st /\ d_h st' = d_h st /\ d_clips st' = d_clips st /\ d_ctm st' = d_ctm st /\ d_cur st' = d_cur st /\
+  tl (d_layers st') = tl (d_layers st) /\ (d_layers st <> [] -> d_buf st' = d_buf st) /\
+  snd (dest_of st') = snd (dest_of st) /\ zlen (fst (dest_of st')) = zlen (fst (dest_of st)) /\
+  let dest := fst (dest_of st) in let db := snd (dest_of st) in
+  let r := r_inter (r_inter (r_inter rect0 (clip_bounds st)) db) mr in
+  forall X Y, x0 db <= X < x1 db -> 0 <= didx db X Y < zlen dest ->
+    r_in r X Y = false \/ (has_mask mask = true /\ mask_at mask mr X Y = 0) \/
+    (has_mask mask = true /\ (exists c, top_clip_mask st = Some c /\ zn c (Y * d_w st + X) = 0)) ->
+    zn (fst (dest_of st')) (didx db X Y) = zn dest (didx db X Y).
+Proof. exact composite_frame. Qed.
+Print Assumptions C02_composite_frame.
+
+(* (3) the pixel function of every span blitter returns the old value at zero shape coverage or zero clip coverage *)
+Theorem C02_zero_coverage_keeps_pixel : forall k src dst m c,
+  (kind_has_mask k = true /\ m = 0) \/ (kind_has_clip k = true /\ c = 0) -> blit_px k src dst m c = Ok dst.
+Proof. exact blit_px_zero_coverage. Qed.
+Print Assumptions C02_zero_coverage_keeps_pixel.
+
+(* (4) pop_layer is one composite onto what lies below the layer (then (2) applies to it) *)
+Theorem C02_pop_layer : forall st st', pop_layer st = Ok st' ->
+  exists l rest st2, (d_layers st = l :: rest) /\
+    (composite (with_ctm (with_layers st rest) xf_identity)
+              (Image (mk_image (r_w (l_rect l)) (r_h (l_rect l)) (l_buf l)) ExtPad Nearest
+                     (xf_translation (of_int (- x0 (l_rect l))) (of_int (- y0 (l_rect l)))))
+              (Some (repeat (unit_to_u8 (l_opacity l)) (Z.to_nat (d_w st * d_h st)))) (surface_rect st) (l_rect l) (l_blend l) f1 = Ok st2) /\
+    (st' = with_ctm st2 (d_ctm st)).
+Proof. exact pop_layer_is_one_composite. Qed.
+Print Assumptions C02_pop_layer.
+
+(* non-vacuity: Clear-mode fill_rect of a 1x1 rectangle on a 3x2 surface of 0xff102030 touches one pixel only *)
+Example C02_example :
+  let st := dt_new 3 2 (repeat 4279246896 6) in
+  match step_op st (OpFillRect (of_int 1) (of_int 0) (of_int 1) (of_int 1) (Solid 4294967295) (mk_opts Clear f1 true)) with
+  | Ok st' => d_buf st' = [4279246896; 0; 4279246896; 4279246896; 4279246896; 4279246896]
+  | Err _ => False
+  end.
+Proof. vm_compute. reflexivity. Qed.
